@@ -1,24 +1,24 @@
-import SiaProofs.Lemmas.MerkleRhpDiff
+import SiaProofs.Lemmas.MerkleRhpDiffOps
 import SiaProofs.Props.C16
+import SiaProofs.Props.C16Tie
 /-!
 # C16 — diff proofs (rhp/v2 Build/VerifyDiffProof, rhp/v4 Build/VerifyFreeSectorsProof)
 
 `VerifyDiffProof` runs `verifyMulti` twice: once over the old leaf hashes against the old root
 and once over the modified leaf hashes against the new root, re-using the same tree hashes.
-`idx` is the sorted, duplicate-free list of changed indices (`sectorsChanged`), stated here as the
-hypothesis `IdxOK 0 idx n`.
 
-Proved: completeness of both passes (the second in "patch" form: the accepted new root is the
-plain root of the list with the changed positions replaced by the modified leaf hashes), the
-proof size, and soundness **under the extra hypothesis that the number of tree hashes is the
-honest one**.
+* per pass (`idx` = sorted duplicate-free changed indices, hypothesis `IdxOK 0 idx n`):
+  `c16_diff_old_complete`, `c16_diff_new_complete_partial` (patch form), `c16_diff_size`,
+  `c16_diff_old_sound` (for the code as it is now, which checks the leaf count).
+* whole verifier, for action lists  swaps ++ [trim k]  (what `convertFreeActions` produces, and
+  rhp/v2 swap/trim writes): `c16_diff_complete`, `c16_diff_sound` — the accepted new root IS the
+  plain root of `applyActions ls actions`, i.e. `modifyLeaves`/`modifyProofRanges`/`sectorsChanged`
+  (the compressed bookkeeping) are tied to the full-list swap-and-trim. `c16_free_complete`,
+  `c16_free_sound` specialise to rhp/v4.
+* `c16_diff_forged_accepted`: the verifier WITHOUT the leaf-count check (the code before fix
+  9e80790, flag = false) accepts a forged instance; with the check it rejects it.
 
-GAP (real, found while proving, replayed on the Go code): `verifyMulti` does not check the number
-of tree hashes nor that its accumulator ends with `numLeaves` leaves, so without that hypothesis
-soundness is FALSE — `c16_diff_forged_accepted` exhibits a forged instance the verifier accepts
-with the true count and the true old root. What is not proved (covered by exhaustive
-correspondence for `n ≤ 8` only): that `modifyLeaves`/`modifyProofRanges` (the compressed swap
-bookkeeping) coincide with swapping and trimming the full list (`applyFree`).
+Not covered by theorems (correspondence only): action lists containing `Append` or several trims.
 -/
 set_option linter.unusedVariables false
 namespace C16
@@ -30,6 +30,12 @@ def r6 (i : Nat) : T := T.lf [UInt8.ofNat i]
 /-- six distinct sector roots -/
 def six : List T := [r6 0, r6 1, r6 2, r6 3, r6 4, r6 5]
 def h0123 : T := T.nd (T.nd (r6 0) (r6 1)) (T.nd (r6 2) (r6 3))
+
+def accepts (r : Except String Bool) : Bool := match r with | .ok true => true | _ => false
+/-- `r = .ok x`, as a Bool -/
+def isOk {α : Type} [DecidableEq α] (r : Except String α) (x : α) : Bool :=
+  match r with | .ok y => decide (y = x) | .error _ => false
+
 
 /-- old-root pass, completeness: the builder's tree hashes are the gap roots, and together with
 the old leaf hashes they are accepted against the plain old root -/
@@ -90,11 +96,9 @@ theorem c16_diff_size (ls : List H) (n : Nat) (hn : n ≤ ls.length) :
     simp only [gapHashes, diffTreeCount, List.length_append]
     rw [buildRange_length_inner ls e (by omega) _ start rfl, ih (e + 1) h3]
 
-/-- old-root pass, soundness — PARTIAL: needs the hypothesis `hth` that the number of tree hashes
-is the honest one, which the Go verifier does not check (see `c16_diff_forged_accepted`).
-Full statement (false for the code as it is): acceptance with the true count and old root
-implies `th` and `lf` are the honest ones. -/
-theorem c16_diff_old_sound_partial [DecidableEq H] (hinj : NodeInj H) (cc : Bool) (ls : List H)
+/-- old-root pass, soundness under the hypothesis `hth` that the number of tree hashes is the honest
+one (helper: the leaf-count check of the current code implies `hth`, see `c16_diff_old_sound`) -/
+theorem diff_old_sound_of_length [DecidableEq H] (hinj : NodeInj H) (cc : Bool) (ls : List H)
     (idx : List Nat) (th lf : List H) (hok : IdxOK 0 idx ls.length) (hlf : lf.length = idx.length)
     (hth : th.length = (gapHashes ls idx 0 ls.length).length)
     (hacc : verifyMultiG cc idx th lf ls.length (metaRoot ls) = .ok true) :
@@ -125,7 +129,7 @@ theorem c16_diff_old_sound_partial [DecidableEq H] (hinj : NodeInj H) (cc : Bool
 rejects no honest proof) the old-root pass is sound WITHOUT the length hypothesis: with the true
 count and the true old root, acceptance implies the tree hashes and the old leaf hashes are the
 honest ones (so an altered index, leaf hash or tree hash, or a shorter/longer proof, is rejected). -/
-theorem c16_diff_fixed_sound [DecidableEq H] (hinj : NodeInj H) (ls : List H) (idx : List Nat)
+theorem c16_diff_old_sound_checked [DecidableEq H] (hinj : NodeInj H) (ls : List H) (idx : List Nat)
     (th lf : List H) (hok : IdxOK 0 idx ls.length) (hlf : lf.length = idx.length)
     (hacc : verifyMultiG true idx th lf ls.length (metaRoot ls) = .ok true) :
     th = gapHashes ls idx 0 ls.length ∧ lf = idx.map (fun j => ls.getD j zero) := by
@@ -143,7 +147,7 @@ theorem c16_diff_fixed_sound [DecidableEq H] (hinj : NodeInj H) (ls : List H) (i
       rw [c16_diff_size ls ls.length (Nat.le_refl _) idx 0 hok]
       have := c2 (by rw [e0, hnum]; omega)
       omega
-    apply c16_diff_old_sound_partial hinj false ls idx th lf hok hlf hth
+    apply diff_old_sound_of_length hinj false ls idx th lf hok hlf hth
     unfold verifyMultiG
     rw [e1]
     simp [hroot, hrest, bind, Except.bind, pure, Except.pure]
@@ -151,16 +155,176 @@ theorem c16_diff_fixed_sound [DecidableEq H] (hinj : NodeInj H) (ls : List H) (i
 example (th lf : List T) (hlf : lf.length = 2)
     (hacc : verifyMultiG true [4, 5] th lf six.length (metaRoot six) = .ok true) :
     lf = [r6 4, r6 5] := by
-  have := (c16_diff_fixed_sound T_nodeInj six [4, 5] th lf (by simp [IdxOK, six]) hlf hacc).2
+  have := (c16_diff_old_sound_checked T_nodeInj six [4, 5] th lf (by simp [IdxOK, six]) hlf hacc).2
   simpa [six] using this
 
+/-- Old-root pass, soundness FOR THE CODE AS IT IS (the flag is read from the source and tied
+to `true` by `tie_verifyMulti_checks_leaf_count`): with the true count and the true old root,
+acceptance implies the tree hashes and the old leaf hashes are the honest ones. -/
+theorem c16_diff_old_sound [DecidableEq H] (hinj : NodeInj H) (ls : List H) (idx : List Nat)
+    (th lf : List H) (hok : IdxOK 0 idx ls.length) (hlf : lf.length = idx.length)
+    (hacc : verifyMultiG codeChecksLeafCount idx th lf ls.length (metaRoot ls) = .ok true) :
+    th = gapHashes ls idx 0 ls.length ∧ lf = idx.map (fun j => ls.getD j zero) := by
+  rw [tie_verifyMulti_checks_leaf_count.2] at hacc
+  exact c16_diff_old_sound_checked hinj ls idx th lf hok hlf hacc
+
+/-! ### the whole verifier on  swaps ++ [trim k] -/
+
+theorem verifyMultiG_root_unique [DecidableEq H] (cc : Bool) (idx : List Nat) (th lv : List H) (n : Nat)
+    (r1 r2 : H) (h1 : verifyMultiG cc idx th lv n r1 = .ok true) (h2 : verifyMultiG cc idx th lv n r2 = .ok true) :
+    r1 = r2 := by
+  unfold verifyMultiG at h1 h2
+  cases e : verifyMultiLoop Acc.empty th idx lv 0 n with
+  | error m => rw [e] at h1; simp [bind, Except.bind] at h1
+  | ok s =>
+    rw [e] at h1 h2
+    simp only [bind, Except.bind, pure, Except.pure, Except.ok.injEq, Bool.and_eq_true,
+      decide_eq_true_eq] at h1 h2
+    rw [← h1.1.1, ← h2.1.1]
+
+/-- Completeness: for `actions = swaps ++ [trim k]` (indices in range, `k ≤ n`) the builder's proof
+is accepted with the plain old root and the plain root of the list the actions produce. -/
+theorem c16_diff_complete [DecidableEq H] (cc : Bool) (ls : List H) (sw : List (Nat × Nat)) (k : Nat)
+    (hn : ls.length < 18446744073709551616) (hk : k ≤ ls.length)
+    (hsw : ∀ p ∈ sw, p.1 < ls.length ∧ p.2 < ls.length) :
+    ∃ th lf ls', buildDiffProof (swapActs sw ++ [Action.trim k]) ls = .ok (th, lf) ∧
+      applyActions ls (swapActs sw ++ [Action.trim k]) = .ok ls' ∧
+      verifyDiffProofG cc (swapActs sw ++ [Action.trim k]) ls.length th lf (metaRoot ls) (metaRoot ls') = .ok true := by
+  obtain ⟨P, l', hSP, hokS, hokP, hl', happ, hag, hml, hmp⟩ := diff_shape ls sw k hn hk hsw
+  have hsc := sectorsChanged_shape (H := H) sw k ls.length hk hn hsw
+  refine ⟨gapHashes ls (chIdx sw k ls.length) 0 ls.length,
+    (chIdx sw k ls.length).map (fun j => ls.getD j zero), l'.take (ls.length - k), ?_, happ, ?_⟩
+  · unfold buildDiffProof
+    rw [hsc]
+    simp only [bind, Except.bind, pure, Except.pure]
+    rw [(c16_diff_old_complete cc ls _ hokS).1]
+  · unfold verifyDiffProofG
+    rw [hsc]
+    simp only [List.length_map, ne_eq, not_true_eq_false, if_false]
+    rw [(c16_diff_old_complete cc ls _ hokS).2]
+    simp only [hml, hmp]
+    -- the new pass
+    have hlen : ls.length + P.length - (chIdx sw k ls.length).length = ls.length - k := by
+      rw [hSP]; simp; omega
+    simp only [List.length_map]
+    rw [hlen]
+    have hth : gapHashes ls (chIdx sw k ls.length) 0 ls.length = gapHashes ls P 0 (ls.length - k) := by
+      rw [hSP]
+      have := gapHashes_append_range ls (ls.length - k) k P 0 hokP
+      have e : ls.length - k + k = ls.length := by omega
+      rwa [e] at this
+    rw [hth]
+    have hpatch := patchFrom_agree ls l' (ls.length - k) (by omega) (by omega) P 0 hokP
+      (fun j _ h2 h3 => hag j h2 h3)
+    simp only [List.drop_zero, Nat.sub_zero] at hpatch
+    rw [← hpatch]
+    exact c16_diff_new_complete_partial cc ls P _ (ls.length - k) (by omega) hokP (by simp)
+
+/-- Soundness for the code as it is: with the true count and the true old root, acceptance forces
+the new root to be the plain root of the list after the swaps and the trim — and the proof to be
+the honest one. Hence any altered index, leaf hash, tree hash or root is rejected. -/
+theorem c16_diff_sound [DecidableEq H] (hinj : NodeInj H) (ls : List H) (sw : List (Nat × Nat)) (k : Nat)
+    (hn : ls.length < 18446744073709551616) (hk : k ≤ ls.length)
+    (hsw : ∀ p ∈ sw, p.1 < ls.length ∧ p.2 < ls.length)
+    (th lf : List H) (newRoot : H)
+    (hacc : verifyDiffProofG codeChecksLeafCount (swapActs sw ++ [Action.trim k]) ls.length th lf
+      (metaRoot ls) newRoot = .ok true) :
+    ∃ ls', applyActions ls (swapActs sw ++ [Action.trim k]) = .ok ls' ∧ newRoot = metaRoot ls' ∧
+      buildDiffProof (swapActs sw ++ [Action.trim k]) ls = .ok (th, lf) := by
+  obtain ⟨th0, lf0, ls', hbuild, happ, hhonest⟩ := c16_diff_complete codeChecksLeafCount ls sw k hn hk hsw
+  obtain ⟨P, l', hSP, hokS, hokP, hl', happ', hag, hml, hmp⟩ := diff_shape ls sw k hn hk hsw
+  have hsc := sectorsChanged_shape (H := H) sw k ls.length hk hn hsw
+  -- what the honest proof is
+  have hb : th0 = gapHashes ls (chIdx sw k ls.length) 0 ls.length ∧
+      lf0 = (chIdx sw k ls.length).map (fun j => ls.getD j zero) := by
+    unfold buildDiffProof at hbuild
+    rw [hsc] at hbuild
+    simp only [bind, Except.bind, pure, Except.pure] at hbuild
+    rw [(c16_diff_old_complete true ls _ hokS).1] at hbuild
+    simp only [Except.ok.injEq, Prod.mk.injEq] at hbuild
+    exact ⟨hbuild.1.symm, hbuild.2.symm⟩
+  -- the old pass pins th and lf
+  unfold verifyDiffProofG at hacc hhonest
+  rw [hsc] at hacc hhonest
+  simp only at hacc hhonest
+  by_cases hlen : (chIdx sw k ls.length).length = lf.length
+  · simp only [hlen, ne_eq, not_true_eq_false, if_false] at hacc
+    cases hold : verifyMultiG codeChecksLeafCount (chIdx sw k ls.length) th lf ls.length (metaRoot ls) with
+    | error e => rw [hold] at hacc; simp at hacc
+    | ok v =>
+      cases v with
+      | false => rw [hold] at hacc; simp at hacc
+      | true =>
+        obtain ⟨hth, hlf⟩ := c16_diff_old_sound hinj ls _ th lf hokS hlen.symm hold
+        rw [← hb.1] at hth
+        rw [← hb.2] at hlf
+        subst hth hlf
+        rw [hold] at hacc
+        simp only at hacc
+        -- same computation as the honest run, which ends in the root of ls'
+        have hlen0 : (chIdx sw k ls.length).length = lf.length := hlen
+        simp only [hlen0, ne_eq, not_true_eq_false, if_false, hold] at hhonest
+        refine ⟨ls', happ, ?_, hbuild⟩
+        cases hm : modifyLeaves lf (swapActs sw ++ [Action.trim k]) ls.length with
+        | error e => rw [hm] at hacc; simp at hacc
+        | ok nl =>
+          rw [hm] at hacc hhonest
+          simp only at hacc hhonest
+          cases hp : modifyProofRanges (chIdx sw k ls.length) (swapActs sw ++ [Action.trim k] : List (Action H)) ls.length with
+          | error e => rw [hp] at hacc; simp at hacc
+          | ok ni =>
+            rw [hp] at hacc hhonest
+            simp only at hacc hhonest
+            exact verifyMultiG_root_unique _ _ _ _ _ _ _ hacc hhonest
+  · simp [hlen] at hacc
+
+/-! ### rhp/v4 free-sectors proofs -/
+
+/-- Completeness of `BuildFreeSectorsProof` / `VerifyFreeSectorsProof`: for in-range indices (any
+order; `RPCFreeSectorsRequest.Validate` also makes them distinct) the proof is accepted with the
+plain old root and the plain root of the list after "swap freed[i] with n-1-i, then trim". -/
+theorem c16_free_complete [DecidableEq H] (cc : Bool) (ls : List H) (freed : List Nat)
+    (hn : ls.length < 18446744073709551616) (hk : freed.length ≤ ls.length) (hf : ∀ x ∈ freed, x < ls.length) :
+    ∃ th lf ls', buildFreeSectorsProof ls freed = .ok (th, lf) ∧ applyFree ls freed = .ok ls' ∧
+      verifyFreeSectorsProofG cc th lf freed ls.length (metaRoot ls) (metaRoot ls') = .ok true := by
+  obtain ⟨th, lf, ls', h1, h2, h3⟩ := c16_diff_complete cc ls (freeSwaps freed ls.length) freed.length hn hk
+    (freeSwaps_lt freed ls.length hk hf)
+  refine ⟨th, lf, ls', ?_, ?_, ?_⟩
+  · unfold buildFreeSectorsProof; rw [convertFreeActions_eq freed ls.length hk hn]; exact h1
+  · rw [applyFree_eq ls freed hk hn, convertFreeActions_eq freed ls.length hk hn]; exact h2
+  · unfold verifyFreeSectorsProofG; rw [convertFreeActions_eq freed ls.length hk hn]; exact h3
+
+example : ∃ th lf ls', buildFreeSectorsProof six [1, 4] = .ok (th, lf) ∧ applyFree six [1, 4] = .ok ls' ∧
+    verifyFreeSectorsProofG true th lf [1, 4] six.length (metaRoot six) (metaRoot ls') = .ok true :=
+  c16_free_complete true six [1, 4] (by decide) (by decide) (by decide)
+
+/-- Soundness of `VerifyFreeSectorsProof` for the code as it is: with the true sector count and
+the true old root, acceptance forces the new root to be the plain root of the list after the
+requested swap-and-trim (so the proof of freeing OTHER sectors is rejected), and the proof to be
+the one the builder emits. -/
+theorem c16_free_sound [DecidableEq H] (hinj : NodeInj H) (ls : List H) (freed : List Nat)
+    (hn : ls.length < 18446744073709551616) (hk : freed.length ≤ ls.length) (hf : ∀ x ∈ freed, x < ls.length)
+    (th lf : List H) (newRoot : H)
+    (hacc : verifyFreeSectorsProof th lf freed ls.length (metaRoot ls) newRoot = .ok true) :
+    ∃ ls', applyFree ls freed = .ok ls' ∧ newRoot = metaRoot ls' ∧
+      buildFreeSectorsProof ls freed = .ok (th, lf) := by
+  unfold verifyFreeSectorsProof verifyFreeSectorsProofG at hacc
+  rw [convertFreeActions_eq freed ls.length hk hn] at hacc
+  obtain ⟨ls', h1, h2, h3⟩ := c16_diff_sound hinj ls (freeSwaps freed ls.length) freed.length hn hk
+    (freeSwaps_lt freed ls.length hk hf) th lf newRoot hacc
+  refine ⟨ls', ?_, h2, ?_⟩
+  · rw [applyFree_eq ls freed hk hn, convertFreeActions_eq freed ls.length hk hn]; exact h1
+  · unfold buildFreeSectorsProof; rw [convertFreeActions_eq freed ls.length hk hn]; exact h3
+
+/-- the forged instance of `c16_diff_forged_accepted` is rejected by the code as it is -/
+example : verifyFreeSectorsProof [h0123] [r6 4, r6 5] [3] six.length (metaRoot six) (T.nd h0123 (r6 5)) ≠ .ok true := by
+  intro h
+  obtain ⟨ls', h1, h2, _⟩ := c16_free_sound T_nodeInj six [3] (by decide) (by decide) (by decide) _ _ _ h
+  have : isOk ((applyFree six [3]).map metaRoot) (T.nd h0123 (r6 5)) = true := by
+    rw [h1]; simp [Except.map, isOk, h2]
+  exact absurd this (by decide +kernel)
+
 /-! ### the gap is real: a forged free-sectors proof the verifier accepts -/
-
-def accepts (r : Except String Bool) : Bool := match r with | .ok true => true | _ => false
-/-- `r = .ok x`, as a Bool -/
-def isOk {α : Type} [DecidableEq α] (r : Except String α) (x : α) : Bool :=
-  match r with | .ok y => decide (y = x) | .error _ => false
-
 
 /-- With the TRUE count 6 and the TRUE old root of `six`, the honest proof and new root for
 "free sector 4" are accepted for the claim "free sector 3", although the list after freeing
